@@ -466,14 +466,14 @@ func genEth(rng *rand.Rand, st *ethState) Tx {
 		st.created = true
 		return Tx{K: "eth", From: ok, To: "create", Pay: "store", Gas: 200000, Cls: "eth-create"}
 	case c < 7 && st.created:
-		return Tx{K: "eth", From: ok, To: "contract", Pay: word(0x01), Gas: 100000, Cls: "eth-call-store"}
+		return Tx{K: "eth", From: ok, To: "contract", Pay: word(0x01), Amt: []string{"0", "0", "3"}[rng.Intn(3)], Gas: 100000, Cls: "eth-call-store"}
 	case c < 8 && st.created:
 		if f := fresh(); f != "" {
-			return Tx{K: "eth", From: f, To: "contract", Pay: word(0xff), Gas: 100000, Cls: "eth-call-revert"}
+			return Tx{K: "eth", From: f, To: "contract", Pay: word(0xff), Amt: []string{"0", "5", "12345"}[rng.Intn(3)], Gas: 100000, Cls: "eth-call-revert"}
 		}
 	case c < 9 && st.created:
 		if f := fresh(); f != "" {
-			return Tx{K: "eth", From: f, To: "contract", Pay: word(0x02), Gas: 22000, Cls: "eth-call-outofgas"}
+			return Tx{K: "eth", From: f, To: "contract", Pay: word(0x02), Amt: []string{"0", "7"}[rng.Intn(2)], Gas: 22000, Cls: "eth-call-outofgas"}
 		}
 	case c < 10: // rejected after the gas was bought: gas limit below the intrinsic gas
 		return Tx{K: "eth", From: ok, To: "u2", Amt: "1", Gas: 20000, Cls: "eth-intrinsic-gas"}
